@@ -39,8 +39,8 @@ PLANS = {
                       ("book", "toggle", 900, 60, []), ("book", "mixed", 600, 80, ["--levels", "1,3,10"])],
             "thorough": [("enum", "d4", 16, 4, []), ("book", "modify", 10000, 80, ["--levels", "5"]), ("book", "modify", 4000, 120, ["--prices", "2"]),
                          ("book", "toggle", 2000, 100, []), ("book", "mixed", 3000, 120, ["--levels", "1,3,10"])]},
-    "C07": {"quick": [("book", "wide", 300, 60, []), ("book", "reload", 900, 60, ["--levels", "1,10"]), ("market", "reload", 300, 80, ["--levels", "1,10"]), ("book", "mixed", 600, 80, ["--levels", "1,3,10"])],
-            "thorough": [("book", "wide", 2000, 100, []), ("book", "reload", 6000, 120, ["--levels", "1,3,10,24"]), ("market", "reload", 2000, 120, ["--levels", "1,3,10"]), ("book", "mixed", 3000, 120, ["--levels", "1,3,10"])]},
+    "C07": {"quick": [("book", "wide", 300, 60, []), ("book", "reload", 900, 60, ["--levels", "1,10"]), ("market", "reload", 300, 80, ["--levels", "1,10"]), ("market", "reload", 60, 80, ["--assets", "12"]), ("book", "mixed", 600, 80, ["--levels", "1,3,10"])],
+            "thorough": [("book", "wide", 2000, 100, []), ("book", "reload", 6000, 120, ["--levels", "1,3,10,24"]), ("market", "reload", 2000, 120, ["--levels", "1,3,10"]), ("market", "reload", 300, 120, ["--assets", "12"]), ("book", "mixed", 3000, 120, ["--levels", "1,3,10"])]},
     "C08": {"quick": [("env", "plain", 900, 8, ["--levels", "3"]), ("menv", "plain", 600, 8, ["--levels", "3"]),
                       ("env", "toggle", 300, 8, []), ("menv", "toggle", 300, 8, []), ("env", "long", 16, 250, []), ("menv", "long", 16, 250, [])],
             "thorough": [("env", "long", 64, 1500, []), ("menv", "long", 64, 1500, []), ("env", "plain", 5000, 12, ["--levels", "1,3,10"]), ("menv", "plain", 4000, 12, ["--levels", "1,3,10"]),
@@ -63,7 +63,7 @@ PLANS = {
                          ("market", "plain", 2000, 100, []), ("env", "toggle", 2000, 12, []), ("menv", "toggle", 2000, 12, []), ("book", "mixed", 3000, 120, ["--levels", "1,3,10"])]},
     "C14": {"quick": [("market", "plain", 900, 80, ["--levels", "1,3,10"]), ("market", "malformed", 450, 60, []), ("menv", "plain", 600, 8, ["--assets", "1,2,3,4"]),
                       ("menv", "unusual", 300, 8, ["--assets", "2,3,4"]),
-                      ("menv", "toggle", 300, 8, ["--assets", "2,3,4"])],
+                      ("menv", "toggle", 300, 8, ["--assets", "2,3,4"]), ("market", "reload", 60, 80, ["--assets", "12"])],
             "thorough": [("market", "plain", 5000, 200, ["--levels", "1,3,10"]), ("menv", "plain", 4000, 12, ["--assets", "1,2,3,4"]),
                          ("menv", "toggle", 2000, 12, ["--assets", "2,3,4"]), ("market", "reload", 1000, 100, []), ("market", "malformed", 2000, 100, [])]},
     "C15": {"quick": [("env", "plain", 1200, 8, []), ("menv", "plain", 900, 8, []), ("env", "overfull", 300, 6, []),
